@@ -2,7 +2,7 @@
 import vlib
 
 REWRITES = [("cmd/application/conns.go", ["-swap", "time=vtime", "-swap", "math/rand=vrand"]),
-            ("pkg/station/lib/proxies.go", ["-swap", "time=vtime", "-swap", "sync=vsync", "-swap", "net=vnet", "-go"]),
+            ("pkg/station/lib/proxies.go", ["-swap", "time=vtime", "-swap", "sync=vsync", "-swap", "net=vnet", "-go", "-chan"]),
             ("pkg/station/lib/registration.go", ["-swap", "time=vtime"])]
 INJECTS = [("harness/libacc/lib_verif.go", "pkg/station/lib/zz_verif_acc.go"),
            ("harness/app/zz_verif_main.go", "cmd/application/zz_verif_main.go"),
